@@ -704,21 +704,39 @@ class FnRun:
                 if multi:
                     st[("variant", (ndl, pre))] = frozenset([rv["variant"]])
                     pre = pre + (("down", rv["variant"]),)
+            elem = "cidx" if rv["agg"] == "array" else "f"
+            st_c = st
+            if rv["agg"] == "closure" and isinstance(bi, int) and 0 <= bi < len(self.body["blocks"]):
+                # `flag.then(|| ..)`: the closure built for this call runs only when the flag is true — its captures are
+                # read in the state refined by what the flag implies
+                tt = self.body["blocks"][bi]["t"]
+                if tt and tt["k"] == "call" and tt["f"].get("name") in ("then",) and ((tt["f"].get("resolved") or tt["f"]).get("path", "") or "").startswith("core::bool::") and len(tt["args"]) == 2:
+                    a0 = tt["args"][0].get("move") or tt["args"][0].get("copy")
+                    a1 = tt["args"][1].get("move") or tt["args"][1].get("copy")
+                    if a0 is not None and a1 is not None and not a0["p"] and not a1["p"] and a1["l"] == dl and not dp:
+                        st2 = dict(st)
+                        fk = (a0["l"], ())
+                        if st.get(fk) == (0, 0):
+                            st_c = None         # the flag is false on every path seen so far: the closure does not run
+                        r1 = self.refine_by_rel(st2, fk, True) if ("rel", fk) in st2 else None
+                        r2 = self.refine_by_cond(st2, fk, True) if ("cond", fk) in st2 else None
+                        if st_c is not None and r1 is not False and r2 is not False and (r1 or r2):
+                            st_c = st2
             for i, o in enumerate(rv["ops"]):
                 v = self.operand(st, o)
                 opl = o.get("copy") or o.get("move")
-                if rv["agg"] == "closure" and rv.get("closure") and ("closure:" + rv["closure"], str(i)) in self.an.private:
-                    cv = v
-                    if cv is None and opl is not None and not opl["p"] and ("ptr", opl["l"]) in st:
-                        tl_, tp_ = st[("ptr", opl["l"])]      # captured by reference: the range of the borrowed place
-                        cv = self.read(st, tl_, tuple(tp_))
+                if rv["agg"] == "closure" and rv.get("closure") and ("closure:" + rv["closure"], str(i)) in self.an.private and st_c is not None:
+                    cv = self.operand(st_c, o) if st_c is not st else v
+                    if cv is None and opl is not None and not opl["p"] and ("ptr", opl["l"]) in st_c:
+                        tl_, tp_ = st_c[("ptr", opl["l"])]      # captured by reference: the range of the borrowed place
+                        cv = self.read(st_c, tl_, tuple(tp_))
                     self.an.record_field("closure:" + rv["closure"], str(i), cv)
                 if rv["agg"] == "adt" and adt is not None and adt["kind"] == "struct" and i < len(adt["variants"][0]["fields"]):
                     fdef = adt["variants"][0]["fields"][i]
                     if is_int(fdef["ty"]):
                         self.an.record_field(rv["adt"], fdef["name"], v)
                 if v is not None:
-                    st[(ndl, pre + (("f", i),))] = v
+                    st[(ndl, pre + ((elem, i),))] = v
                     if opl is not None and rv["agg"] == "tuple":
                         # `match (a, b)`: a component of the scrutinee tuple is a copy of a place; what the match arms
                         # learn about the component holds for the place as well
@@ -800,6 +818,10 @@ class FnRun:
                 elif len(cands) == 1 and is_int(dty):
                     sret, _ = self.an.summary(cands[0])
                     ret = sret
+        if "indirect" not in f and f.get("name") == "map" and "core::array::" in ((f.get("resolved") or f).get("path", "") or "") and len(t["args"]) == 2:
+            extra.update(self.array_map_model(st, t, dty))
+        if "indirect" not in f and cond is None and dty == "bool" and f.get("name") == "contains" and len(t["args"]) == 2:
+            cond = self.range_contains_cond(st, t)
         ndl, ndp = self.norm(st, dl, dp)
         self.kill(st, ndl, ndp)
         if is_int(dty):
@@ -812,6 +834,63 @@ class FnRun:
             st[(ndl, tuple(ndp) + sub)] = v
         if "indirect" not in f and cond is not None and dty == "bool":
             st[("cond", (ndl, tuple(ndp)))] = cond
+
+    def array_map_model(self, st, t, dty):
+        """`[a, b, c].map(u16::from)`: with a lossless integer conversion (`From` between integer types) as the function
+        item every element keeps its interval.  Anything else is not modelled (elements get their type range)."""
+        fn_arg = t["args"][1]
+        c = fn_arg.get("const") if isinstance(fn_arg, dict) else None
+        fty = (c or {}).get("ty") if isinstance(c, dict) else None
+        path = str(fty.get("fndef") or "") if isinstance(fty, dict) else ""
+        targs = fty.get("args") if isinstance(fty, dict) else None
+        if not (path in ("core::convert::From::from", "core::convert::Into::into") and targs and all(is_int(x) for x in targs)):
+            return {}
+        ety = dty.get("array") if isinstance(dty, dict) else None
+        if not is_int(ety):
+            return {}
+        pl = t["args"][0].get("move") or t["args"][0].get("copy")
+        if pl is None:
+            return {}
+        sl, sp = self.norm(st, pl["l"], [pe(e) for e in pl["p"]])
+        out = {}
+        rng = TYPE_RANGE[ety]
+        for kk, v in st.items():
+            if isinstance(kk[0], int) and kk[0] == sl and kk[1][:len(sp)] == tuple(sp) and len(kk[1]) == len(sp) + 1 and kk[1][-1][0] == "cidx":
+                if v[0] >= rng[0] and v[1] <= rng[1]:
+                    out[(kk[1][-1],)] = v
+        return out
+
+    def range_contains_cond(self, st, t):
+        """`(a..b).contains(&x)` / `(a..=b).contains(&x)` / `(..b)` / `(a..)`: a true result implies a <= x < b (<= b);
+        a false result implies nothing for an interval (it is a disjunction).  Both operands are references to places
+        of this body."""
+        r = (t["f"].get("resolved") or t["f"]).get("path", "") or ""
+        kind = None
+        for k_ in ("RangeInclusive", "RangeToInclusive", "RangeFrom", "RangeTo", "Range"):
+            if ("ops::range::" + k_ + "<") in r or ("ops::range::" + k_ + "::") in r:
+                kind = k_
+                break
+        if kind is None:
+            return None
+        tg = []
+        for a in t["args"]:
+            pl = a.get("move") or a.get("copy")
+            if pl is None or pl["p"] or ("ptr", pl["l"]) not in st:
+                return None
+            tg.append(st[("ptr", pl["l"])])
+        (rl, rp), (il, ip) = tg
+        rp, ip = list(rp), list(ip)
+        lo = self.read(st, rl, rp + [("f", 0)]) if kind in ("Range", "RangeInclusive", "RangeFrom") else None
+        hi = self.read(st, rl, rp + [("f", 1 if kind in ("Range", "RangeInclusive") else 0)]) if kind != "RangeFrom" else None
+        cur = self.read(st, il, ip)
+        if cur is None:
+            return None
+        a = lo[0] if lo is not None else cur[0]
+        b = (hi[1] - (0 if kind.endswith("Inclusive") else 1)) if hi is not None else cur[1]
+        if a > b:
+            return ({}, {})
+        il, ip = self.norm(st, il, ip)
+        return ({(il, tuple(ip)): (a, b)}, {})
 
     def callee_targs(self, g, r):
         """{generic parameter of g: concrete type} from the resolved generic arguments of a call"""
@@ -1307,9 +1386,6 @@ class FnRun:
             for st, v, c in ((a, va, ca), (b, vb, cb)):
                 if v in ((0, 0), (1, 1)):
                     parts[v[0]] = jmap(parts[v[0]], {p: x for p, x in places(st).items() if p != k})
-                elif v == (0, 1) and c is not None and c[0] is not None and c[1] is not None and all(isinstance(m, dict) for m in c):
-                    parts[1] = jmap(parts[1], c[0])
-                    parts[0] = jmap(parts[0], c[1])
                 elif v == (0, 1):
                     # the flag is a comparison result on this edge (`.. && h > y`): each value of it refines this state
                     for tv in (1, 0):
@@ -1323,8 +1399,16 @@ class FnRun:
                     okp = False
             if okp and parts[0] is not None and parts[1] is not None:
                 # keep only places for which the flag says something (differs from the joined value)
-                tm = {p: x for p, x in parts[1].items() if out.get(p) != x and p in out}
-                fm = {p: x for p, x in parts[0].items() if out.get(p) != x and p in out}
+                def cur_(p_):
+                    # a place without an entry has its default (contract / type) range in the joined state
+                    if p_ in out:
+                        return out[p_]
+                    try:
+                        return self.default(p_[0], p_[1])
+                    except Exception:
+                        return None
+                tm = {p: x for p, x in parts[1].items() if cur_(p) is not None and cur_(p) != x}
+                fm = {p: x for p, x in parts[0].items() if cur_(p) is not None and cur_(p) != x}
                 if tm or fm:
                     out[("cond", k)] = (tm, fm)
 
